@@ -1,5 +1,28 @@
-(* Cases of kind (skel ...): the skeleton lexer of GoStd/Skeleton.v run on a source text.
-   Stub until that model exists. *)
+(* Cases of kind (skel): the skeleton lexer of GoStd/Skeleton.v run on source texts.
+   A line `(skel) (t x<hex source>) ...` prints, for each text, one observation
+     (skel <k><n> <k><n> ...)
+   listing the regions in order: <k> = kind (c code, l line comment, b block comment,
+   s interpreted string, r raw string, q rune literal, e unterminated string/rune/comment),
+   <n> = length in bytes (decimal).  The regions partition the text (Props/C15.v
+   C15_skel_partition), so kinds and lengths determine them.  The Go harness prints the same
+   from go/scanner's token positions and compares. *)
 From Jen Require Export Model.Exec.
+From Jen Require Import Base.Num GoStd.Skeleton.
 
-Definition run_skel_case (ops : list sexp) : option (list str) := None.
+Definition kind_letter (k : kind) : byte :=
+  match k with
+  | KCode => x63 | KLine => x6c | KBlock => x62 | KStr => x73 | KRaw => x72 | KRune => x71 | KErr => x65
+  end.
+
+Definition len_N (s : str) : N := fold_left (fun n _ => N.succ n) s 0%N.
+
+Definition print_region (r : region) : str := kind_letter (fst r) :: N_to_dec (len_N (snd r)).
+
+Definition skel_obs (src : str) : str := paren (S "skel" :: map print_region (skel src)).
+
+Definition run_skel_case (ops : list sexp) : option (list str) :=
+  all_some (map (fun e =>
+                   match e with
+                   | SList [Atom a; x] => if str_eqb a (S "t") then omap skel_obs (atom_str x) else None
+                   | _ => None
+                   end) ops).
